@@ -39,6 +39,7 @@ type Hist struct {
 	sentSeen     int
 	monitors     []func(h *Hist) // run after every step
 	inDowntime   bool            // a node is down and its peer is taking steps
+	recoverFault string          // planted at the next reboot (sweep scenarios)
 	hangReported bool
 	stop         bool            // a monitor hit a known finding: stop checking this case
 	startedAt    map[string]int  // swap id -> op index
@@ -62,6 +63,7 @@ type HistCfg struct {
 	NoInitialSwap bool
 	SlowPays      bool // payment calls that block longer than the retry budget
 	PeerMoves     bool // the counterparty of a live swap sends cancel / a useless coop_close at any point
+	RecoverFaults bool // a service call fails once while the restarted node recovers its swaps
 	Eager         bool // per history: watches / notifiers registered for a past event call back at once on their own goroutine
 	Weights       map[string]int
 }
@@ -222,6 +224,17 @@ func (h *Hist) reboot(n *sim.Node, deliverBeforeRecover bool) {
 		h.T.Fatalf("reboot: %v", err)
 	}
 	h.opf("boot(%s)", n.Name)
+	// a back-end that is not ready yet when the daemon comes up: one call of the recovery fails
+	rf := h.recoverFault
+	h.recoverFault = ""
+	if rf == "" && h.Cfg.RecoverFaults && rapid.IntRange(0, 2).Draw(h.T, "recoverFaultWanted") == 0 {
+		rf = rapid.SampledFrom(recoverFaultCalls).Draw(h.T, "recoverFault")
+	}
+	if rf != "" {
+		n.Faults[rf] = []sim.FaultKind{sim.FaultBefore}
+		h.opf("fault-during-recovery(%s,%s)", n.Name, rf)
+		h.class("recover-fault:" + rf)
+	}
 	if deliverBeforeRecover {
 		// the daemon registers its message handler (Start) before RecoverSwaps
 		for _, m := range h.W.PendingMsgs() {
@@ -385,6 +398,10 @@ func (h *Hist) actArmCrash() {
 	h.W.CrashAt = h.W.TraceLen() + k
 	h.opf("armcrash(+%d)", k)
 }
+
+// recoverFaultCalls: what a recovering swap may call first.
+var recoverFaultCalls = []string{"ln.DecodePayreq", "validator.ValidateTx", "watcher.GetBlockHeight", "store.UpdateData", "msg.Send",
+	"wallet.CreatePreimageSpendingTransaction", "wallet.CreateCsvSpendingTransaction", "ln.GetPayreq"}
 
 var faultable = []string{
 	"msg.Send", "store.UpdateData", "wallet.CreateOpeningTransaction", "wallet.SetLabel",
